@@ -662,7 +662,7 @@ func init() {
 	extras["C20"] = append(extras["C20"], func(c *Ctx) {
 		s := newXmltokSets(c)
 		runXmlTokFixed(s)
-		runXmlTokDocs(s, c.N(200<<10, 1500<<10))
+		runXmlTokDocs(s, c.N(64<<10, 1500<<10))
 		runXmlTokGrammar(s, c.N(250, 4000))
 		c.Rep.Rule += "; XML tokenizer / tree-builder model (XmlTok.v) against the real readers on the documents of this stream (etree's tree, the duplicate-preserving tree and the element xml.Unmarshal consumes) and on generated XML"
 	})
